@@ -999,7 +999,9 @@ func (r *messageReader) Read(b []byte) (int, error) {
 				c.readMaskPos = maskBytes(c.readMaskKey, c.readMaskPos, b[:n])
 			}
 			c.readRemaining -= int64(n)
-			if c.readRemaining > 0 && c.readErr == io.EOF {
+			// The transport may return the last bytes of the frame together with io.EOF: that ends
+			// the message only if this was the whole final frame, otherwise the stream is cut.
+			if c.readErr == io.EOF && (c.readRemaining > 0 || !c.readFinal) {
 				c.readErr = errUnexpectedEOF
 			}
 			return n, c.readErr
